@@ -3,6 +3,8 @@ package props
 import (
 	"bytes"
 	"fmt"
+	"github.com/dave/dst/decorator/resolver/goast"
+	"github.com/dave/dst/decorator/resolver/simple"
 	"go/ast"
 	"go/format"
 	"go/token"
@@ -57,8 +59,9 @@ var anchorAlias = map[string]string{"Tok": "TokPos", "Op": "OpPos", "Arrow": "Ar
 
 // c04Exceptions: points documented (doc example in decorations-types-generated.go) to sit
 // somewhere else than "after the field of the same name".
-//   IfStmt.Else     "} else /*Else*/ {": after the else keyword, i.e. BEFORE the child named Else
-//   TypeSpec.Name   alias form "type T = /*Name*/ U"? no: "T /*Name*/ = U" is what positions.go shows for non-alias; for an alias the '=' follows Name
+//
+//	IfStmt.Else     "} else /*Else*/ {": after the else keyword, i.e. BEFORE the child named Else
+//	TypeSpec.Name   alias form "type T = /*Name*/ U"? no: "T /*Name*/ = U" is what positions.go shows for non-alias; for an alias the '=' follows Name
 var c04OrderOnly = map[string]string{
 	"IfStmt.Else": "documented after the else keyword, before the Else child",
 }
@@ -487,7 +490,7 @@ func runC04(c *fw.Ctx) {
 	for _, k := range zn {
 		inputs = append(inputs, input{"zoo:" + k, []byte(zoo[k])})
 	}
-	if b := readFile(repoDir()+"/gendst/data/positions.go"); b != nil {
+	if b := readFile(repoDir() + "/gendst/data/positions.go"); b != nil {
 		inputs = append(inputs, input{"repo:gendst/data/positions.go", b})
 	}
 	for _, p := range corpus.Sample(c.Rand("files"), c.Pick(60, 1500)) {
@@ -636,6 +639,10 @@ func runC04(c *fw.Ctx) {
 		})
 	}
 
+	// package-qualified identifiers under import management: the restorer renders them through a
+	// hand-written expansion (identifier -> selector) with the points Start, X (after the dot) and End
+	c04Qualified(c)
+
 	// filled instances: accessor monitor on every node type with every point populated
 	for i, t := range gen.NodeTypes() {
 		if !c.Mine(i) {
@@ -645,6 +652,126 @@ func runC04(c *fw.Ctx) {
 			fl := &gen.Filler{}
 			n := fl.Fill(t, 2)
 			c04Accessors(c, "fill:"+t.Elem().Name(), n)
+		})
+	}
+}
+
+// c04Qualified decorates every point of every path-carrying identifier of import-resolved corpus
+// files and checks hook / print exactly-once and the documented place of each point.
+func c04Qualified(c *fw.Ctx) {
+	files := corpus.Sample(c.Rand("qualified-files"), c.Pick(160, 2500))
+	for i, p := range files {
+		if !c.Mine(i) {
+			continue
+		}
+		src := readFile(p)
+		if src == nil || len(src) > 60000 || !bytes.Contains(src, []byte("import")) {
+			continue
+		}
+		names, ok := corpus.ImportNames(src)
+		if !ok {
+			continue
+		}
+		id := "qualified:" + corpus.Rel(p)
+		c.Case(id, func() {
+			d := decorator.NewDecoratorWithImports(token.NewFileSet(), "example.com/self", goast.WithResolver(simple.New(names)))
+			f, err := d.Parse(src)
+			if err != nil {
+				return
+			}
+			type site struct{ s, x, e string }
+			var sites []site
+			k := 0
+			dst.Inspect(f, func(n dst.Node) bool {
+				if idn, ok := n.(*dst.Ident); ok && idn.Path != "" {
+					k++
+					st := site{fmt.Sprintf("/*q%dS*/", k), fmt.Sprintf("/*q%dX*/", k), fmt.Sprintf("/*q%dE*/", k)}
+					idn.Decs.Start.Append(st.s)
+					idn.Decs.X.Append(st.x)
+					idn.Decs.End.Append(st.e)
+					sites = append(sites, st)
+				}
+				return true
+			})
+			if len(sites) == 0 {
+				return
+			}
+			c04HookMu.Lock()
+			hook := map[string]int{}
+			verifhook.Set(&verifhook.Handler{Dec: func(nodeType, point, text string, cursor, cnl int) { hook[text]++ }})
+			var buf bytes.Buffer
+			var perr error
+			sig, detail := fw.Try(func() { perr = decorator.NewRestorerWithImports("example.com/self", simple.New(names)).Fprint(&buf, f) })
+			verifhook.Set(nil)
+			c04HookMu.Unlock()
+			if sig != "" {
+				c.Violate("restore-failed", sig, id+" [qualified]\n"+detail, string(src))
+				return
+			}
+			if perr != nil {
+				c.Count("inconclusive_qualified_restore_error", 1)
+				return
+			}
+			toks, _ := obs.Scan(buf.Bytes())
+			occ := map[string]int{}
+			at := map[string]int{}
+			for ti, t := range toks {
+				if t.Tok == token.COMMENT {
+					occ[t.Lit]++
+					at[t.Lit] = ti
+				}
+			}
+			viol := func(rule, sig, detail string) {
+				c.Violate(rule, sig, id+" [qualified]: "+detail, string(src))
+			}
+			// between(a, b) lists the tokens strictly between two token indices, comments dropped
+			between := func(a, b int) []token.Token {
+				var out []token.Token
+				for k := a + 1; k < b && k < len(toks); k++ {
+					if toks[k].Tok != token.COMMENT {
+						out = append(out, toks[k].Tok)
+					}
+				}
+				return out
+			}
+			// tokens for which the ast records no position of their own: go/printer emits them
+			// before flushing a comment that follows the previous operand
+			unpositioned := map[token.Token]bool{token.COMMA: true, token.SEMICOLON: true, token.PERIOD: true, token.RBRACK: true, token.ASSIGN: true, token.COLON: true}
+			for _, st := range sites {
+				for _, pt := range []struct{ point, text string }{{"Start", st.s}, {"X", st.x}, {"End", st.e}} {
+					if hook[pt.text] != 1 {
+						viol("hook-exactly-once", "hook-exactly-once:Ident(qualified)."+pt.point, fmt.Sprintf("decoration %q was applied %d times by the restorer", pt.text, hook[pt.text]))
+						return
+					}
+					if occ[pt.text] != 1 {
+						viol("print-exactly-once", "print-exactly-once:Ident(qualified)."+pt.point, fmt.Sprintf("comment %q occurs %d times in the output", pt.text, occ[pt.text]))
+						return
+					}
+				}
+				// documented places: Start, qualifier, ".", X, name, End
+				is, ix, ie := at[st.s], at[st.x], at[st.e]
+				okPlace := is < ix && ix < ie
+				if okPlace {
+					sx := between(is, ix) // [unpositioned...] IDENT PERIOD
+					for len(sx) > 0 && (sx[0] == token.COMMA || sx[0] == token.SEMICOLON) {
+						sx = sx[1:]
+					}
+					okPlace = len(sx) == 2 && sx[0] == token.IDENT && sx[1] == token.PERIOD
+				}
+				if okPlace {
+					xe := between(ix, ie) // IDENT [unpositioned]
+					okPlace = len(xe) >= 1 && xe[0] == token.IDENT && len(xe) <= 2 && (len(xe) == 1 || unpositioned[xe[1]])
+				}
+				if !okPlace {
+					viol("placement", "placement:Ident(qualified)", fmt.Sprintf("points of one qualified identifier are printed as tokens #%d (Start) #%d (X) #%d (End); want Start, qualifier, dot, X, name, End in this order with nothing but unpositioned punctuation in between", is, ix, ie))
+					return
+				}
+				c.Count("qualified_points_checked", 3)
+			}
+			c.Observe("type_points", "Ident(qualified).Start")
+			c.Observe("type_points", "Ident(qualified).X")
+			c.Observe("type_points", "Ident(qualified).End")
+			c.Nontrivial(id)
 		})
 	}
 }
